@@ -29,6 +29,8 @@ Segs    == {"a", "A", "%61", "~", "%7E", "%7e", "a%2Fb", "a%2fb", "%E9", "%e9", 
             "a.b", "a%2Eb", "a%2eb", "a%3Fq=a", "%2541", "a%252Fb"}
 Paths   == {<<>>, <<"">>} \cup {<<s>> : s \in Segs} \cup {<<"a", s>> : s \in {"b", "B", ".", "..", ""}}
            \cup {<<".", "a">>, <<"..", "a">>, <<"a", ".", "b">>, <<"a", "..", "b">>, <<"a", "b", "..">>, <<"x", "..", "a">>, <<"a", "", "b">>}
+           \* dot segments spelled with escapes: "." is unreserved, so %2E is a dot and these are dot segments as well
+           \cup {<<"a", "%2E", "b">>, <<"a", "%2E%2E", "b">>, <<"a", "b", "%2e%2E">>, <<"x", ".%2E", "a">>}
 Queries == {"NONE", "q=RAWFF", "q=RAWFE", "q=RAWFFFD", "q=%%341", "q=%4%31", "q=a", "q=A", "q=%61", "q=~", "q=%7e", "q=%7E", "q=%E9", "q=%e9", "q=RAWE9", "q=%C3%A9", "q=a%2Fb", "q=a%2fb", "q=a&r=b", "r=b&q=a", "q=+", "q=%20"}
 Frags   == {"", "#frag"}
 Users   == {"", "user@"}
@@ -74,6 +76,7 @@ PortNF(scheme, p) == IF p \in {"", ":", DefaultPort(scheme)} THEN "" ELSE p
 \* percent-encoding: hex digits upper case, escaped unreserved ASCII decoded
 PctNF(s) == CASE s = "%61" -> "a" [] s \in {"%7E", "%7e"} -> "~" [] s = "a%2fb" -> "a%2Fb" [] s = "%e9" -> "%E9"
               [] s \in {"a%2Eb", "a%2eb"} -> "a.b"
+              [] s = "%2E" -> "." [] s \in {"%2E%2E", "%2e%2E", ".%2E"} -> ".."
               [] s = "q=%61" -> "q=a" [] s \in {"q=%7e", "q=%7E"} -> "q=~" [] s = "q=a%2fb" -> "q=a%2Fb" [] s = "q=%e9" -> "q=%E9"
               [] OTHER -> s
 \* in a path, Go sends raw non-ASCII bytes escaped; in a query it sends them raw
@@ -111,7 +114,12 @@ KHostPort(a) == LET p == PortNF(a.scheme, a.port) IN
 KPct(s) == IF "latin1_unreserved" \in Defects /\ s \in {"q=%E9", "q=%e9"} THEN "q=RAWE9"
            ELSE IF "rewrite_malformed" \in Defects /\ s \in {"q=%%341", "q=%4%31"} THEN "q=%41"
            ELSE PctNF(s)
-KeyOf(a) == [scheme |-> Lower(a.scheme), hostport |-> KHostPort(a), path |-> PathNF(a.path), query |-> KPct(a.query)]
+\* the pinned tree removed dot segments (url.ResolveReference, which looks at the escaped path) BEFORE it decoded escaped
+\* unreserved characters, so a segment "%2E%2E" survived as ".."
+KPath(p) == IF "dots_before_decode" \in Defects
+              THEN LET d == Dots(p, <<>>) IN IF d = <<>> THEN <<"">> ELSE [i \in 1..Len(d) |-> SegNF(d[i])]
+            ELSE PathNF(p)
+KeyOf(a) == [scheme |-> Lower(a.scheme), hostport |-> KHostPort(a), path |-> KPath(a.path), query |-> KPct(a.query)]
 
 (***************************************************************************)
 (* enumeration                                                             *)
